@@ -129,7 +129,12 @@ func (e *Env) lookupIdent(name string) (tv, bool) {
 	}
 	if e.frame != nil {
 		if a, ok := e.frame.alias[name]; ok {
-			name = a
+			if _, still := e.frame.locals[name]; !still {
+				if la := e.c.eng.localAlias[qualFnName(e.frame.fn)]; la != nil && la[name] == a {
+					e.c.eng.aliasUsed[e.c.key] = true
+				}
+				name = a
+			}
 		}
 		if v, ok := e.frame.locals[name]; ok {
 			// declared type of the variable
@@ -444,9 +449,15 @@ func (e *Env) evalBinary(n EBinary) tv {
 	case "==", "!=":
 		// nil on either side adapts to the other operand's kind
 		if _, isNil := n.Y.(ENil); isNil {
+			if _, isStruct := a.v.(St); isStruct {
+				return e.fail("a struct value compared with nil (%s)", n.X.exprString())
+			}
 			b = tv{e.nilLike(a), a.t}
 		}
 		if _, isNil := n.X.(ENil); isNil {
+			if _, isStruct := b.v.(St); isStruct {
+				return e.fail("a struct value compared with nil (%s)", n.Y.exprString())
+			}
 			a = tv{e.nilLike(b), b.t}
 		}
 		eq := c.valuesEqual(e.s, a.v, b.v, a.t)
@@ -561,6 +572,10 @@ func (e *Env) evalSel(n ESel) tv {
 	// struct value
 	if sv, ok := base.v.(St); ok {
 		if st, ok := isStructType(sv.Typ); ok {
+			if an := c.eng.fieldNameFor(sv.Typ, n.Name); an != n.Name {
+				c.eng.aliasUsed[c.key] = true
+				n.Name = an
+			}
 			for i := 0; i < st.NumFields(); i++ {
 				if st.Field(i).Name() == n.Name {
 					return tv{sv.F[i], st.Field(i).Type()}
@@ -588,6 +603,10 @@ func (e *Env) evalSel(n ESel) tv {
 		return e.fail("selector .%s on non-struct %s (type %v)", n.Name, n.X.exprString(), base.t)
 	}
 	owner := derefType(base.t)
+	if an := c.eng.fieldNameFor(owner, n.Name); an != n.Name {
+		c.eng.aliasUsed[c.key] = true
+		n.Name = an
+	}
 	for i := 0; i < st.NumFields(); i++ {
 		if st.Field(i).Name() == n.Name {
 			ft := st.Field(i).Type()
@@ -730,6 +749,15 @@ func (e *Env) evalCall(n ECall) tv {
 		if m.t != nil {
 			if mt, ok := m.t.Underlying().(*types.Map); ok {
 				if sc, ok := m.v.(Sc); ok && sc.T.Sort == SInt {
+					if k.t != nil {
+						// a key of a basic type (string, int) cannot index a map keyed by a struct, and vice versa
+						kb, kIsBasic := k.t.Underlying().(*types.Basic)
+						mb, mIsBasic := mt.Key().Underlying().(*types.Basic)
+						_, mIsIface := mt.Key().Underlying().(*types.Interface)
+						if !mIsIface && kIsBasic && kb.Kind() != types.UnsafePointer && (!mIsBasic || (kb.Info()&types.IsString != 0) != (mb.Info()&types.IsString != 0)) {
+							return e.fail("has(): the map's key type is %s, not %s: cannot index", mt.Key(), k.t)
+						}
+					}
 					return tv{Sc{T: c.mapHas(s, sc.T, mt, k.v)}, boolT}
 				}
 			}
